@@ -289,7 +289,32 @@ fn sequences(ctx: &Ctx, rounds: u64) {
     });
 }
 
+/// Programs that hold nothing but instructions the device lacks, 2 to 65536 of them (the last fills the flash of a
+/// 64 Ki-word part to its last word): one is enough to fail the build, and so are all of them.
+fn many_forbidden(ctx: &Ctx) {
+    for (dev, line, per) in [("ATmega128", "\teijmp\n", 1usize), ("ATmega103", "\tmul r0, r1\n", 1), ("ATmega128", "here:\teicall\n", 1), ("ATmega1280", "\tespm\n", 1)] {
+        if avra_lib::device::DEVICES.get(dev).map(|d| d.flash_size) != Some(65536) {
+            continue;
+        }
+        for n in [2usize, 255, 256, 257, 65535, 65536] {
+            let line = if line.starts_with("here:") { "\teicall\n" } else { line };
+            let src = format!(".device {}\n{}", dev, line.repeat(n / per));
+            let out = fw::build_str(&src);
+            ctx.eval(1);
+            ctx.count("programs_of_nothing_but_forbidden_instructions", 1);
+            if !out.is_err() {
+                ctx.violation(
+                    format!("gate/many-forbidden/{}", if n < 256 { "below-256" } else if n < 65536 { "256-and-more" } else { "65536" }),
+                    format!("{} x `{}` on {}: {}", n, line.trim(), dev, fw::clip(&format!("{:?}", out.kind()), 80)),
+                    json!({"source": src, "device": dev, "sequence": true, "must_build": false}),
+                );
+            }
+        }
+    }
+}
+
 pub fn run(ctx: &Ctx) -> i32 {
+    many_forbidden(ctx);
     if let Err(e) = isa::selfcheck() {
         println!("HARNESS-FAILURE property=C13 {}", e);
         return 2;
